@@ -30,11 +30,11 @@ OPS_BY_PROP = {
     "C12": {"must": ["refine_uniform"],
             "pool": ["refine_uniform", "refine_uniform", "tag_s", "tag_b",
                      "tag_s", "tag_b", "restrict", "transform", "refine_adaptive",
-                     "split", "oriented"]},
+                     "split", "oriented", "dirty_unused", "join_mixed"]},
     "C13": {"must": ["refine_adaptive"],
             "pool": ["refine_adaptive", "refine_adaptive", "refine_adaptive",
                      "refine_uniform", "tag_s", "tag_s", "tag_b", "restrict",
-                     "transform", "oriented"]},
+                     "transform", "oriented", "dirty_unused"]},
     "C18": {"must": ["restrict", "remove", "join", "split", "extrude",
                      "transform", "clean_unused", "clean_duplicate",
                      "restrict_map", "oriented", "join_mixed", "trace"],
@@ -66,7 +66,8 @@ def _gen_op(rng, name):
     if name == "refine_adaptive":
         return {"op": name, "mark": rng.choice(
             ["random", "random", "single", "all", "empty", "around-vertex",
-             "subdomain"]), "frac": rng.choice([0.1, 0.3, 0.6]), "seed": sd,
+             "subdomain", "bitmask", "bitmask"]),
+            "frac": rng.choice([0.1, 0.3, 0.6]), "seed": sd,
             "dtype": rng.choice(["int32", "int64", "list"])}
     if name in ("restrict", "remove", "restrict_map"):
         return {"op": name, "frac": rng.choice([0.2, 0.5, 0.8, 1.0]),
@@ -130,6 +131,16 @@ def generate(prop, rng, tier):
     drop = [n for n in enabled if rng.random() < 0.25]
     pool = [n for n in pool if n not in drop] or list(spec["pool"])
     ops = [_gen_op(rng, rng.choice(pool)) for _ in range(nops)]
+    for o in ops:
+        # branch: apply the operation, judge its result, then go on from the
+        # PARENT mesh object (which has meanwhile been an operand and has
+        # warm caches) instead of from the result
+        if o["op"] in ("refine_uniform", "refine_adaptive", "restrict",
+                       "remove", "transform", "split", "oriented") \
+                and rng.random() < 0.2:
+            o["discard"] = True
+        if rng.random() < 0.25:
+            o["warm"] = True      # touch the lazily built tables first
     # the property's own operation is always present, after some prefix
     pos = rng.randint(0, len(ops))
     ops.insert(pos, _gen_op(rng, rng.choice(spec["must"])))
@@ -313,6 +324,10 @@ def _marked(st, o):
     elif how == "around-vertex":
         v = r.randrange(s.nv)
         ix = sorted(np.nonzero((s.t == v).any(axis=0))[0].tolist()) or [0]
+    elif how == "bitmask" and s.nt <= 24:
+        # uniform over ALL subsets of the cells of a small mesh
+        bits = r.getrandbits(s.nt)
+        ix = [c for c in range(s.nt) if (bits >> c) & 1]
     elif how == "subdomain" and s.sub:
         name = sorted(s.sub)[0]
         ix = sorted(s.sub[name].tolist())
@@ -338,7 +353,26 @@ def step(st, o, prop, probes, faults):
     old_prop = lg.propagate
     lg.propagate = False
     try:
-        return _step(st, o, prop, probes, faults, catcher, skm)
+        if o.get("warm"):
+            try:
+                m.facets, m.t2f, m.f2t
+                if s.dim == 3:
+                    m.edges, m.t2e
+                _bump(probes, "lazy-tables-warmed-before-op")
+            except Exception:
+                pass
+        if not o.get("discard"):
+            return _step(st, o, prop, probes, faults, catcher, skm)
+        saved = (st.m, st.s, st.pts, st.inside, dict(st.labels),
+                 dict(st.sub_meas), dict(st.bnd_meas), dict(st.bnd_samples),
+                 st.total, st.allow_unused)
+        try:
+            tag = _step(st, o, prop, probes, faults, catcher, skm)
+        finally:
+            (st.m, st.s, st.pts, st.inside, st.labels, st.sub_meas,
+             st.bnd_meas, st.bnd_samples, st.total, st.allow_unused) = saved
+        _bump(probes, "result-discarded-parent-reused")
+        return "discarded:" + str(tag)
     finally:
         lg.removeHandler(catcher)
         lg.propagate = old_prop
